@@ -13,7 +13,7 @@ virtual-step counter behaviour.
 Correspondence: the `Float` instance of the same definitions (driver C20) against the real
 `AdaClipDPOptimizer` (direct and via `PrivacyEngine.make_private(clipping="adaptive")`) and the real
 `PrivacyEngineAdaptiveClipping` ghost engine, with `torch.normal` replaced by a scripted sampler
-(vharness/props/c20_rig.py).  Compared per step: bound used for clipping, live multiplier, std
+(vharness/props/c20_rig.py).  Compared per step: bound used for clipping, std
 passed to `torch.normal` for gradient and count noise, denominator, noisy count, what
 `accountant.history` gained, new bound (all 1e-9: `exp`/`pow` differ from Lean's by an ulp), and the
 clipped sum Σ fᵢ·gᵢ rebuilt from the model's clip factors against `p.summed_grad`.
@@ -34,6 +34,27 @@ MODULES = ["OpacusLean.Props.C20"]
 THEOREMS = [
     "Opacus.C20.sigma_split_identity",
     "Opacus.C20.sigma_split_defined_iff",
+    "Opacus.C20.clip_update_rule_adaclip",
+    "Opacus.C20.clip_update_rule_ghost",
+    "Opacus.C20.clip_update_rule_adaclip_virtual",
+    "Opacus.C20.clip_stays_in_bounds_adaclip",
+    "Opacus.C20.raw_count_noninterference_adaclip",
+    "Opacus.C20.raw_count_noninterference_adaclip_skip",
+    "Opacus.C20.raw_count_noninterference_ghost",
+    "Opacus.C20.charged_sigma_le_nominal_adaclip",
+    "Opacus.C20.charged_sigma_le_nominal_ghost",
+    "Opacus.C20.adaclip_charges_inflated",
+    "Opacus.C20.ghost_charges_inflated",
+    "Opacus.C20.adaclip_charges_inflated_counterexample",
+    "Opacus.C20.ghost_charges_inflated_counterexample",
+    "Opacus.C20.adaclip_witness_repaired",
+    "Opacus.C20.adaclip_float_witness",
+    "Opacus.C20.released_step_accounted_once_adaclip",
+    "Opacus.C20.released_step_accounted_once_ghost",
+    "Opacus.C20.ghost_guard_iff_split_defined",
+    "Opacus.C20.adaclip_empty_batch_counterexample",
+    "Opacus.C20.adaclip_empty_batch_repaired",
+    "Opacus.C20.adaclip_virtual_step_counterexample",
 ]
 RULE = (
     "case = (implementation ∈ {AdaClipDPOptimizer direct / via PrivacyEngine, ghost adaptive engine}, σ, σ_b, η, γ, "
@@ -228,7 +249,6 @@ def compare_case(case, impl_head, impl_outs, model_replies, tol=TOL):
         exp_grad_calls = [] if m["gradStd"] == 0.0 else [m["gradStd"]]
         checks = [
             ("clipUsed", [o["clipUsed"]], [m["clipUsed"]]),
-            ("gradMult", [o["gradMult"]], [m["gradMult"]]),
             ("gradStd", o["gradStd"], exp_grad_calls),
             ("countStd", o["countStd"], [m["countStd"]]),
             ("recorded", o["recorded"], [m["recorded"]]),
@@ -380,7 +400,7 @@ def nonint_oracle(case, rng_seed):
         if o["kind"] != "rel" and o["kind"] != "skip":
             break
         norms = list(o["norms"])
-        if not norms:
+        if not norms or o["kind"] == "skip":   # skipped physical batches are left as they are
             continue
         slack = 1e-6 if impl == "ada" else 0.0
         cnt = sum(1 for v in norms if v + slack <= C)
